@@ -329,9 +329,10 @@ where
             eprintln!("Progress bar thread emitted error message: {:?}", e);
         }
 
-        let sample_f32 = sample.to_data();
-        let view =
-            ArrayView3::<f32>::from_shape(sample.dims(), sample_f32.as_slice().unwrap()).unwrap();
+        // Convert (do not reinterpret) the tensor data: the backend may be f64.
+        let sample_f32 = sample.to_data().convert::<f32>();
+        let view = ArrayView3::<f32>::from_shape(sample.dims(), sample_f32.as_slice::<f32>().unwrap())
+            .unwrap();
         let run_stats = RunStats::from(view);
 
         Ok((sample, run_stats))
